@@ -339,6 +339,22 @@ def oracle_empty():
         if abs(first - 0.0) > 1e-5 or abs(second - 2.0) > 1e-5:
             return ('suppfunc([1,1]) of {-1 <= x <= 0} is %r and, after re-defining the same SigDomain as {-1 <= x <= 1}, %r (expected 0 and 2)'
                     % (first, second))
+        # a user-specified SigDomain with a nonlinear (exponential) constraint, where an unrelated Variable is created between writing the
+        # constraints and constructing the domain: the three views still describe {x : e^x0 + e^x1 <= 2}
+        xe = cl.Variable(shape=(2,), name='userdom_x')
+        ucons = [cl.weighted_sum_exp(np.array([1.0, 1.0]), xe) <= 2]
+        _unrelated = cl.Variable(shape=(3,), name='userdom_unrelated')
+        D2 = SigDomain(2, coniclifts_cons=ucons, gts=[lambda z: 2.0 - math.exp(z[0]) - math.exp(z[1])], eqs=[])
+        for pt, inside in (([0.0, 0.0], True), ([-1.0, 0.4], True), ([0.6, -3.0], True), ([1.0, 0.0], False), ([0.5, 0.5], False)):
+            mem = bool(D2.check_membership(np.array(pt), 1e-7))
+            con = feasible_with_x_fixed(D2, pt)
+            if mem != inside or (con is not None and con != inside):
+                return ('user-specified SigDomain {e^x0 + e^x1 <= 2} (an unrelated Variable was created before SigDomain(...)): point %s is %s the '
+                        'set, check_membership says %s, the conic data (A is %s) say %s' % (pt, 'in' if inside else 'outside', mem, D2.A.shape, con))
+        for yv, want in (([1.0, 1.0], 0.0), ([1.0, 0.0], math.log(2.0))):
+            got = D2.suppfunc(np.array(yv))
+            if not abs(got - want) <= 1e-4:
+                return 'user-specified SigDomain {e^x0 + e^x1 <= 2}: suppfunc(%s) = %r, expected %r' % (yv, got, want)
         # a component of x that no constraint mentions: X is unbounded along it (fixed 0520ccb; kept as a directed case)
         y2 = so.standard_sig_monomials(2)
         X2 = ss.infer_domain(y2[0], [1 - y2[0]], [])
